@@ -36,7 +36,8 @@ def enc_bp(rng, s):
     return w.bytes()
 
 
-def enc_pt(rng, s):
+def enc_pt(rng, s, force=None):
+    force = force or {}
     w = BitWriter()
     v = s["vui"]
     if v is not None:
@@ -46,15 +47,15 @@ def enc_pt(rng, s):
             w.u(a, rng.choice([0, (1 << a) - 1, rng.getrandbits(a)]))
             w.u(b, rng.choice([0, (1 << b) - 1, rng.getrandbits(b)]))
         if v["pic_struct_present"]:
-            ps = rng.randrange(16)
+            ps = force.get('ps', rng.randrange(16))
             w.u(4, ps)
             nts = {0: 1, 1: 1, 2: 1, 3: 2, 4: 2, 5: 3, 6: 3, 7: 2, 8: 3}.get(ps, 0)
             tol = (v["nal_hrd"] or v["vcl_hrd"] or {"tol": 24})["tol"]
             for _ in range(nts):
-                f = rng.random() < 0.7
+                f = force.get('flag', rng.random() < 0.7)
                 w.b(f)
                 if f:
-                    w.u(2, rng.randrange(4)).b(rng.random() < 0.5).u(5, rng.choice([0, 1, 6, 7, 31, rng.randrange(32)]))
+                    w.u(2, force.get('ct', rng.randrange(4))).b(rng.random() < 0.5).u(5, force.get('cnt', rng.choice([0, 1, 6, 7, 31, rng.randrange(32)])))
                     full = rng.random() < 0.4
                     w.b(full).b(rng.random() < 0.5).b(rng.random() < 0.5).u(8, rng.randrange(256))
                     if full:
@@ -100,6 +101,16 @@ def gen(tier, rng):
                 if rng.random() < 0.3:
                     cases.append("pt %s %d %s" % (ctx, s["id"], hx(q[:rng.randrange(0, len(q) + 1)])))
                     cases.append("pt %s %d %s" % (ctx, s["id"], hx(q + bytes([rng.choice([0, 0x80, 0xff])]))))
+    # every pic_struct 0..15, ct_type 0..3 and counting_type 0..31 at least once (the enum tables), with and without HRD
+    for sh in ({"nal": False, "vcl": False, "cnt": 0, "cnt2": 0, "ps": True}, {"nal": True, "vcl": False, "cnt": 1, "cnt2": 0, "ps": True}):
+        s = g.gen_sps(rng, sps_id=3, small=True, vui_shape=sh)
+        if s["vui"] is None or not s["vui"]["pic_struct_present"]:
+            continue
+        ctx = "S" + hx(g.sps_nal(s, rng))
+        for ps in range(16):
+            cases.append("pt %s %d %s" % (ctx, s["id"], hx(enc_pt(rng, s, {"ps": ps, "flag": True}))))
+        for cnt in range(32):
+            cases.append("pt %s %d %s" % (ctx, s["id"], hx(enc_pt(rng, s, {"ps": rng.choice([0, 3, 5]), "flag": True, "cnt": cnt, "ct": cnt % 4}))))
     cases.append("bp - 40")
     cases.append("bp - 0000000000")
     for b in range(256):
